@@ -135,6 +135,10 @@ func (g *conGen) read(allowSnap bool, allowIter bool) ConOp {
 			}
 			op.Sub = append(op.Sub, sub)
 		}
+		if g.r.Bool(0.25) {
+			// CopyTo from the snapshot while the original keeps changing
+			op.Sub = append(op.Sub, ConOp{Kind: "copyto", N: []int{-1, 1, 2, 5, 100}[g.r.Intn(5)]})
+		}
 	}
 	return op
 }
